@@ -157,6 +157,13 @@ func (s *Server) serve(ctx context.Context, listener net.Listener, handler Modbu
 			return err
 		}
 
+		select {
+		case <-ctx.Done():
+			_ = netConn.Close() // do not leak connection that was accepted while context ended
+			return ErrServerClosed
+		default:
+		}
+
 		if s.OnAcceptConnFunc != nil {
 			if err := s.OnAcceptConnFunc(ctx, netConn.RemoteAddr(), uint64(s.activeConnectionCount.Load()+1)); err != nil {
 				if err := netConn.Close(); err != nil {
@@ -164,13 +171,6 @@ func (s *Server) serve(ctx context.Context, listener net.Listener, handler Modbu
 				}
 				continue
 			}
-		}
-
-		select {
-		case <-ctx.Done():
-			_ = netConn.Close() // do not leak connection that was accepted while context ended
-			return ErrServerClosed
-		default:
 		}
 
 		cCtx := context.WithValue(ctx, ContextRemoteAddr{}, netConn.RemoteAddr())
